@@ -5,7 +5,8 @@ Sources modelled (anchors of C05):
 * `core/hotspot/cache/lru.go`            → `LRU` (`addIfAbsent`, `get`; `set` = an atomic store through the cell pointer)
 * `core/hotspot/traffic_shaping.go`      → `extract` (ExtractArgs), `capOf`, `rejectCheck`, `throttleCheck`
 * `core/hotspot/slot.go`                 → `slotCheck` (block short-circuits, a wait is slept and the loop goes on)
-* `core/hotspot/rule_manager.go`         → `validRule`, `mkCtls` (invalid / unsupported rules are dropped)
+* `core/hotspot/rule_manager.go`         → `validRule`, `mkCtls` (invalid / unsupported rules are dropped), `reload`
+                                           (`Equals` / `IsStatReusable` reuse of controllers and statistics)
 
 Conventions: an argument value travels as its canonical tagged text `v:<kind>:<text>` (two values are equal
 as Go interface values iff their texts are equal; the generator never emits NaN or -0); `v:n:` is the nil
@@ -133,6 +134,61 @@ def mkCtlsFrom : Nat → List Rule → List Ctl
   | i, r :: rs => if validRule r then mkCtl i r :: mkCtlsFrom (i + 1) rs else mkCtlsFrom (i + 1) rs
 
 def mkCtls (rs : List Rule) : List Ctl := mkCtlsFrom 0 rs
+
+/-! ## Rule reload (`onRuleUpdate` → `buildResourceTrafficShapingController`)
+
+For every valid new rule, in order: the first remaining old controller of the resource whose bound rule
+`Equals` the new one is taken over as it is (object, bound rule and statistic); otherwise the first remaining one
+that `IsStatReusable` donates its `ParamsMetric` (both caches) to a new controller; otherwise everything is new.
+A consumed old controller is removed from the candidates, so no statistic is ever handed out twice. -/
+
+/-- `SpecificItems` as maps -/
+def sameItems (a b : List (Val × Int)) : Bool := a.all (fun p => b.contains p) && b.all (fun p => a.contains p)
+
+/-- `old.Equals(new)`, `old` being the rule object bound to a controller: its `SpecificItems` were normalised to a
+    non-nil map by the constructor, so a new rule with a nil map (`items = []` here) is never `reflect.DeepEqual` -/
+def ruleEquals (o n : Rule) : Bool :=
+  o.res == n.res && o.cb == n.cb && o.cap == n.cap && o.idx == n.idx && o.key == n.key && o.T == n.T && o.D == n.D
+    && (!n.items.isEmpty && sameItems o.items n.items)
+    && (if o.cb = 0 then o.burst == n.burst else if o.cb = 1 then o.mq == n.mq else false)
+
+/-- `old.IsStatReusable(new)` -/
+def statReusable (o n : Rule) : Bool := o.res == n.res && o.cb == n.cb && o.cap == n.cap && o.D == n.D
+
+/-- where a controller of the new generation comes from (`gid` of the old controller) -/
+inductive Origin where
+  | fresh
+  | same (old : Nat)
+  | stat (old : Nat)
+deriving Repr, DecidableEq
+
+def Origin.old? : Origin → Option Nat
+  | .fresh => none
+  | .same g => some g
+  | .stat g => some g
+
+/-- the reuse plan: candidates `(gid, bound rule)`, position of the next rule in the loaded slice, label base -/
+def planFrom (base : Nat) : List (Nat × Rule) → Nat → List Rule → List (Nat × Rule × Origin)
+  | _, _, [] => []
+  | old, i, r :: rs =>
+    if !validRule r then planFrom base old (i + 1) rs else
+    match old.findIdx? (fun o => ruleEquals o.2 r) with
+    | some k => (base + i, r, .same ((old[k]?.map (·.1)).getD 0)) :: planFrom base (old.eraseIdx k) (i + 1) rs
+    | none =>
+      match old.findIdx? (fun o => statReusable o.2 r) with
+      | some k => (base + i, r, .stat ((old[k]?.map (·.1)).getD 0)) :: planFrom base (old.eraseIdx k) (i + 1) rs
+      | none => (base + i, r, .fresh) :: planFrom base old (i + 1) rs
+
+/-- `hotspot.LoadRules` on a module holding `old`; new controllers are labelled `base + position` -/
+def reload (base : Nat) (old : List Ctl) (rs : List Rule) : List Ctl :=
+  (planFrom base (old.map fun c => (c.gid, c.rule)) 0 rs).map fun (g, r, o) =>
+    match o with
+    | .fresh => mkCtl g r
+    | .same og => (old.find? (fun c => c.gid == og)).getD (mkCtl g r)
+    | .stat og =>
+      match old.find? (fun c => c.gid == og) with
+      | some c => { gid := g, rule := r, time := c.time, token := c.token }
+      | none => mkCtl g r
 
 inductive Res where
   | pass
